@@ -75,6 +75,31 @@ void check_string_pair(const Str &a, const Str &b, pbt::Ctx &ctx) {
             check_pair_axioms(Ops{va < cb, va <= cb, va > cb, va >= cb, va == cb, va != cb}, ref, "StringView vs C-string " + what, ctx);
         }
     }
+    // operands that share storage: two views cut from one buffer at the same start (what tokenising or prefix enumeration over a
+    // single buffer produces), a view against the C string it was cut from, and both primitives on one pointer with two lengths
+    if (a.size() != b.size() && (a.compare(0, std::string::npos, b, 0, a.size()) == 0 || b.compare(0, std::string::npos, a, 0, b.size()) == 0)) {
+        const Str       &longer = a.size() > b.size() ? a : b;
+        String<char>     buf{longer.c_str(), SizeT(longer.size())};
+        StringView<char> xa{buf.First(), SizeT(a.size())}, xb{buf.First(), SizeT(b.size())};
+        check_pair_axioms(Ops{xa < xb, xa <= xb, xa > xb, xa >= xb, xa == xb, xa != xb}, ref, "StringView (same buffer) " + what, ctx);
+        if (longer.find('\0') == Str::npos && &longer == &b) {
+            const char *cb = buf.First();
+            check_pair_axioms(Ops{xa < cb, xa <= cb, xa > cb, xa >= cb, xa == cb, xa != cb}, ref, "StringView vs the C-string it is cut from " + what, ctx);
+        }
+        const char *p0 = buf.First();
+        bool        l2 = StringUtils::IsLess(p0, p0, SizeT(a.size()), SizeT(b.size()), false);
+        bool        g2 = StringUtils::IsGreater(p0, p0, SizeT(a.size()), SizeT(b.size()), false);
+        bool        le2 = StringUtils::IsLess(p0, p0, SizeT(a.size()), SizeT(b.size()), true);
+        bool        ge2 = StringUtils::IsGreater(p0, p0, SizeT(a.size()), SizeT(b.size()), true);
+        if (l2 != (ref < 0) || g2 != (ref > 0) || le2 != (ref <= 0) || ge2 != (ref >= 0)) {
+            ctx.fail("differs-from-reference-order", "StringUtils::IsLess/IsGreater on one pointer with two lengths " + what);
+        }
+    }
+    if (a == b) { // an object compared with itself, and two views of one buffer
+        StringView<char> xa{sa.First(), sa.Length()}, xb{sa.First(), sa.Length()};
+        check_pair_axioms(Ops{xa < xb, xa <= xb, xa > xb, xa >= xb, xa == xb, xa != xb}, 0, "StringView (same buffer, same length) " + what, ctx);
+        check_pair_axioms(Ops{sa < sa, sa <= sa, sa > sa, sa >= sa, sa == sa, sa != sa}, 0, "String with itself " + what, ctx);
+    }
     // StringUtils primitives
     bool l = StringUtils::IsLess(a.data(), b.data(), SizeT(a.size()), SizeT(b.size()), false);
     bool g = StringUtils::IsGreater(a.data(), b.data(), SizeT(a.size()), SizeT(b.size()), false);
